@@ -2530,3 +2530,65 @@ func watermarkHoldGroup(c *Ctx, rule string) {
 		c.Decide(!ignores, rule, key(ai, "counts-index-0"), ai.Pos(), 1, "index 0 is counted like any other", "addIndex ignores index 0: the first transaction of a fresh store (read timestamp 0) is not registered with the read watermark")
 	}
 }
+
+// vlogRemovalGroup: two necessary conditions of removing a value-log segment during GC.
+// (1) The decision that nothing live is left rests on LSM entries whose WAL records may still be
+// buffered: removeValueLogFile makes the WAL durable (wal.Sync()==nil) before it logs the delete
+// and removes the file.  (2) An open iterator resolves the value pointers of its snapshot lazily:
+// iterator constructors register with valueLog.numActiveIterators, Close unregisters, and the
+// last one to go performs the removals rewrite had to postpone (filesToBeDeleted).
+func vlogRemovalGroup(c *Ctx, rule string) {
+	c.Rule(rule, "valueLog.removeValueLogFile reaches LogValueLogDelete / Manager.Remove only behind wal.Sync()==nil (or without a WAL); DB.NewIterator and Txn.NewIterator increment valueLog.numActiveIterators, DBIterator.Close and TxnIterator.Close decrement it, and the decrementing function removes the postponed segments when the count reaches zero")
+	if fn := c.Fn("", "valueLog.removeValueLogFile"); fn != nil {
+		syncs := Calls(fn, false, Named("wal.(*Manager).Sync"))
+		for i, d := range need(c, rule, fn, false, "LogValueLogDelete", Named("lsm.(*LSM).LogValueLogDelete"), 1) {
+			k := key(fn, fmt.Sprintf("LogValueLogDelete[%d]<-ok(wal.Sync)", i+1))
+			if len(syncs) == 0 {
+				c.Fail(rule, k, d.Pos(), 1, "the segment is logged as deleted and removed without making the WAL durable first: the overwrites and GC re-inserts that made it garbage can still be in the WAL's buffer, and a crash leaves recovered keys pointing into a file that no longer exists (value log file not found)")
+				continue
+			}
+			succOK(c, rule, k, fn, syncs, "wal.Sync", d.(ssa.Instruction), "LogValueLogDelete", nilFieldEdges(fn, "NoKV.DB", "wal"))
+		}
+	}
+	delta := func(want int64) func(ssa.CallInstruction) bool {
+		return func(ci ssa.CallInstruction) bool {
+			cc := ci.Common()
+			if !Named("sync/atomic.AddInt32")(cc) || len(cc.Args) != 2 {
+				return false
+			}
+			o, f, ok := FieldOf(cc.Args[0])
+			k, isK := ConstInt(cc.Args[1])
+			return ok && o == "NoKV.valueLog" && f == "numActiveIterators" && isK && k == want
+		}
+	}
+	for _, n := range []string{"DB.NewIterator", "Txn.NewIterator"} {
+		if fn := c.Fn("", n); fn != nil {
+			sites := effectSites(c, fn, delta(1), 2)
+			c.Decide(len(sites) >= 1, rule, key(fn, "registers-with:numActiveIterators"), fn.Pos(), len(sites)+1, "an open iterator holds back segment removal", n+" does not register the iterator with valueLog.numActiveIterators: GC removes a segment the iterator's snapshot still points into, and the iterator silently skips those live keys (value log file not found is treated as `skip this key`)")
+		}
+	}
+	for _, n := range []string{"DBIterator.Close", "TxnIterator.Close"} {
+		if fn := c.Fn("", n); fn != nil {
+			sites := effectSites(c, fn, delta(-1), 2)
+			c.Decide(len(sites) >= 1, rule, key(fn, "unregisters-from:numActiveIterators"), fn.Pos(), len(sites)+1, "a closed iterator no longer holds segments back", n+" does not unregister the iterator from valueLog.numActiveIterators")
+		}
+	}
+	// the decrementing function drains the postponed removals
+	drains := false
+	for _, f := range c.P.ModFuncs {
+		if FuncPkgPath(f) != Module {
+			continue
+		}
+		dec := false
+		AllInstrs(f, false, func(in ssa.Instruction) {
+			if ci, ok := in.(ssa.CallInstruction); ok && delta(-1)(ci) {
+				dec = true
+			}
+		})
+		if dec && len(effectSites(c, f, func(ci ssa.CallInstruction) bool { return Named("NoKV.(*valueLog).removeValueLogFile")(ci.Common()) }, 1)) > 0 {
+			drains = true
+			c.Touch(f)
+		}
+	}
+	c.Decide(drains, rule, "NoKV.valueLog.filesToBeDeleted#drained-by-last-iterator", token.NoPos, 2, "the last iterator to close removes the postponed segments", "no function that decrements numActiveIterators removes the segments queued in filesToBeDeleted: postponed removals never happen (or nothing ever postpones)")
+}
